@@ -2,3 +2,4 @@
 import SmoothProps.C02
 import SmoothProps.SrcTie
 import SmoothProps.SrcTieImplC02
+import SmoothProps.SrcTieBundle
